@@ -391,7 +391,7 @@ def tables_input(prog, cyc, conv):
         if c["op"] == "paths":
             lines.append("paths")
             for ln in c["lines"]:
-                prog.exp("path." + ln["n"], ln["r"], "settability", ln["n"])
+                prog.exp(ln["n"], ln["r"], "settability" if ln["n"].startswith("path.") else "string-conversion", ln["n"])
         elif c["op"] == "conv":
             cid = "conv.%s.%s.%d" % (c["from"], c["to"], c["v"])
             lines.append("conv %s %s %s %d" % (cid, c["from"], c["to"], c["v"]))
@@ -408,7 +408,7 @@ def tables_input(prog, cyc, conv):
 def run_cases_tlc(chk, label, consts, timeout, fixed=False):
     rd = chk.rd.path
     cfg = os.path.join(rd, "cases_%s.cfg" % label)
-    C.write_cfg(cfg, spec="SpecFixed" if fixed else "Spec", constants=consts, invariants=["EmitFixed" if fixed else "Emit"])
+    C.write_cfg(cfg, spec="SpecFixed" if fixed else "Spec", constants=consts, invariants=["EmitFixed"] if fixed else ["LawPointerMethodSet", "LawDeepEqual", "LawVerbs", "Emit"])
     res = C.tlc(SPEC, "ReflectCases", cfg, rd, timeout=timeout, parse_json=False, workers=min(C.NCPU, 8))
     if not res.ok:
         raise C.Undecided("ReflectCases/%s failed in TLC: %s" % (label, res.violation))
@@ -821,6 +821,22 @@ def judge_llgo_run(chk, prog, name, v, run, agreed, stats, findings):
     return True
 
 
+def run_impl_model(chk):
+    """layer B (report only): the pruning rule of checkReflect/filterAbiSymbol against the need derived from layer A"""
+    rd = chk.rd.path
+    out = []
+    for label, inv in (("observed", "NeedObserved"), ("all", "NeedAll")):
+        cfg = os.path.join(rd, "prune_%s.cfg" % label)
+        C.write_cfg(cfg, invariants=[inv])
+        res = C.tlc(SPEC, "PruneImpl", cfg, rd, timeout=600, workers=2, parse_json=False)
+        chk.add_tlc(res, "PruneImpl/" + label)
+        out.append({"cfg": label, "ok": res.ok, "violation": res.violation})
+        if not res.ok:
+            C.log("note: PruneImpl/%s: %s (layer B never judges; the binding is the mteq query in the variant without "
+                  "reflect.Value method lookups)" % (label, res.violation))
+    chk.cov["impl_model"] = out
+
+
 def check(chk):
     thorough = chk.tier == "thorough"
     sd = C.seed()
@@ -872,6 +888,7 @@ def check(chk):
     sim_fut = pool.submit(run_cases_sim, chk, "sim3", sim_consts, 50 if thorough else 20, 4, 1500, 8 if thorough else 2)
     cyc_fut = pool.submit(run_small, chk, "CycEq", "n3", {"N": 3, "Sel": 0, "Mod": 1}, ["Reflexive", "Symmetric", "Emit"])
     conv_fut = pool.submit(run_small, chk, "ConvSet", "all", None, ["RoundTrip", "Emit", "EmitPaths"])
+    impl_fut = pool.submit(run_impl_model, chk)
     enum, sim, cyc, conv = enum_fut.result(), sim_fut.result(), cyc_fut.result(), conv_fut.result()
     if len(cyc) != 512:
         raise C.Undecided("CycEq printed %d heaps, expected 512" % len(cyc))
@@ -983,6 +1000,7 @@ def check(chk):
     if not neg_done:
         raise C.Undecided("no llgo program ran far enough for the negative control: nothing was compared")
 
+    impl_fut.result()
     chk.cov["evaluations"] = stats["evaluations"]
     chk.cov["distinct_nontrivial"] = total_agreed
     chk.cov["traces_validated_against_impl"] = stats["evaluations"]
